@@ -3,7 +3,10 @@
 //! Output: JSON lines like a harness shard (viol / stats / machinery).
 
 mod c11;
+mod c12;
 mod c15;
+mod c16;
+mod c17;
 mod c18;
 mod util;
 
@@ -17,12 +20,19 @@ fn main() {
         "c15w" => return c15::worker(&args[2..]),
         "c15one" => return c15::one(),
         "c15compile" => return c15::compile_child(&args[2..]),
+        "c17fe" => return c17::front_end(),
+        "c17tok" => return c17::tokcmp(&args[2], &args[3]),
+        "c16gen" => return c16::gen(&args[2..]),
         _ => {}
     }
     let tier = refpeg::corpus::Tier::parse(&args[2]);
     match args[1].as_str() {
         "c11" => c11::run(tier),
+        "c12" => c12::run(tier),
         "c15" => c15::run(tier, &args[3]),
+        "c16" => c16::run(tier, &args[3]),
+        "c17texts" => c17::texts(tier),
+        "c16macro" => c16::macro_corpus(tier),
         "c18" => c18::run(tier),
         other => {
             eprintln!("unknown tool {other}");
